@@ -36,9 +36,9 @@ pub struct Compiled {
 }
 
 #[derive(Clone, Copy)]
-pub struct PipeOpts { pub const_simplify: bool, pub lower: bool, pub debug_info: bool }
+pub struct PipeOpts { pub const_simplify: bool, pub lower: bool, pub debug_info: bool, pub stop_after_typecheck: bool }
 
-impl Default for PipeOpts { fn default() -> Self { PipeOpts { const_simplify: true, lower: true, debug_info: true } } }
+impl Default for PipeOpts { fn default() -> Self { PipeOpts { const_simplify: true, lower: true, debug_info: true, stop_after_typecheck: false } } }
 
 /// The body-level compile pipeline of the stackless languages (mirrors formats/anm/mod.rs compile),
 /// driven on a bare block with a TestLanguage.
@@ -58,6 +58,7 @@ pub fn compile_body_with(truth: &mut Truth, mapfile: &str, game: Game, hooks: &l
     passes::resolution::compute_diff_label_masks(&mut block, ctx).map_err(|e| { e.ignore(); Stage::Languages })?;
     passes::resolution::resolve_names(&block, ctx).map_err(|e| { e.ignore(); Stage::Resolve })?;
     passes::type_check::run(&block, ctx).map_err(|e| { e.ignore(); Stage::TypeCheck })?;
+    if opts.stop_after_typecheck { return Ok(Compiled { structured: block.clone(), flat: block, instrs: vec![], info: None }); }
     passes::evaluate_const_vars::run(ctx).map_err(|e| { e.ignore(); Stage::ConstEval })?;
     if opts.const_simplify {
         passes::const_simplify::run(&mut block, ctx).map_err(|e| { e.ignore(); Stage::ConstSimplify })?;
